@@ -60,7 +60,7 @@ func dataValues(q bool) []V {
 func run(r *eng.Runner) {
 	q := r.Quick()
 	emit := func(main []Node, ctx map[string]V, key, label string) {
-		c, ok := prog.Build(map[string][]Node{"/main": main}, ctx, nil, key, label, true)
+		c, ok := prog.BuildTwice(map[string][]Node{"/main": main}, ctx, prog.Vary(ctx), nil, key, label, true)
 		if !ok {
 			r.AddExtra("programs_outside_fragment", 1)
 			return
